@@ -266,3 +266,36 @@ impl LuaIndex for DbIndex {
         self.json_schema_index.clear();
     }
 }
+
+#[cfg(emmyluals_emmylua_analyzer_rust_verif)]
+impl DbIndex {
+    /// Verification hook: `(index field of DbIndex, container, entry count)` for every
+    /// container of every index, so growth of indexed state is observable.
+    pub fn verif_sizes(&self) -> Vec<(&'static str, &'static str, usize)> {
+        let mut out = Vec::new();
+        let mut push = |index: &'static str, sizes: Vec<(&'static str, usize)>| {
+            for (name, n) in sizes {
+                out.push((index, name, n));
+            }
+        };
+        push("decl_index", self.decl_index.verif_sizes());
+        push("references_index", self.references_index.verif_sizes());
+        push("types_index", self.types_index.verif_sizes());
+        push("modules_index", self.modules_index.verif_sizes());
+        push("members_index", self.members_index.verif_sizes());
+        push("property_index", self.property_index.verif_sizes());
+        push("signature_index", self.signature_index.verif_sizes());
+        push("diagnostic_index", self.diagnostic_index.verif_sizes());
+        push("operator_index", self.operator_index.verif_sizes());
+        push("flow_index", self.flow_index.verif_sizes());
+        push("vfs", self.vfs.verif_sizes());
+        push(
+            "file_dependencies_index",
+            self.file_dependencies_index.verif_sizes(),
+        );
+        push("metatable_index", self.metatable_index.verif_sizes());
+        push("global_index", self.global_index.verif_sizes());
+        push("json_schema_index", self.json_schema_index.verif_sizes());
+        out
+    }
+}
